@@ -716,7 +716,7 @@ func init() {
 					return smt.True
 				}
 			}
-			um := fr.w.prog.LookupMethod(e.T, nil, "Unwrap")
+			um := fr.w.findMethod(e.T, "Unwrap")
 			if um == nil || um.Signature.Results().Len() != 1 {
 				return smt.False
 			}
